@@ -716,6 +716,7 @@ fn pam_ops(repo: &str, out: &str) -> Result<String, String> {
         _ => return Err("check_pw: body is not a match".into()),
     };
     let mut verifies: Vec<(String, bool)> = vec![];
+    let mut shapes: Vec<(String, Option<(u64, String)>)> = vec![];
     for a in &m.arms {
         let p = norm(&a.pat);
         let k: String = p.strip_prefix("CryptPw::").ok_or_else(|| format!("check_pw: arm `{p}`"))?.chars().take_while(|c| c.is_ascii_alphanumeric()).collect();
@@ -734,11 +735,43 @@ fn pam_ops(repo: &str, out: &str) -> Result<String, String> {
             }
             true
         };
+        // optional guard `sha_crypt_digest_is_canonical(crypt.as_str(), LEN, "LASTCHARS") && <verifier>`
+        let guard = "sha_crypt_digest_is_canonical(crypt.as_str(),";
+        let shape = match b.find(guard) {
+            None => None,
+            Some(i) => {
+                if i > 1 {
+                    return Err(format!("check_pw: arm {k}: the digest guard is not the first conjunct: `{b}`"));
+                }
+                let rest = &b[i + guard.len()..];
+                let (len, rest) = rest.split_once(",\"").ok_or_else(|| format!("check_pw: arm {k}: guard arguments `{rest}`"))?;
+                let (chars, rest) = rest.split_once("\")").ok_or_else(|| format!("check_pw: arm {k}: guard arguments `{rest}`"))?;
+                if !rest.starts_with("&&") {
+                    return Err(format!("check_pw: arm {k}: the digest guard is not conjoined with the verifier: `{b}`"));
+                }
+                if chars.is_empty() || !chars.chars().all(|c| c == '.' || c == '/' || c.is_ascii_alphanumeric()) {
+                    return Err(format!("check_pw: arm {k}: last-character set `{chars}`"));
+                }
+                Some((len.parse::<u64>().map_err(|e| format!("check_pw: arm {k}: digest length `{len}`: {e}"))?, chars.to_string()))
+            }
+        };
+        shapes.push((k.clone(), shape));
         verifies.push((k, v));
     }
     for k in &kinds {
         if verifies.iter().filter(|(x, _)| x == k).count() != 1 {
             return Err(format!("check_pw: CryptPw::{k} is not handled by exactly one arm"));
+        }
+    }
+
+    if shapes.iter().any(|(_, s)| s.is_some()) {
+        let f = find_fn(&passwd, "sha_crypt_digest_is_canonical")?;
+        let want = "{crypt.rsplit('$').next().is_some_and(|digest|{digest.len()==len&&digest.bytes().all(|b|b==b'.'||b==b'/'||b.is_ascii_alphanumeric())&&digest.chars().last().is_some_and(|c|last_chars.contains(c))})}";
+        if norm(&f.block) != want {
+            return Err(format!("sha_crypt_digest_is_canonical: body not in the expected shape: {}", norm(&f.block)));
+        }
+        if norm(&f.sig) != "fnsha_crypt_digest_is_canonical(crypt:&str,len:usize,last_chars:&str)->bool" {
+            return Err(format!("sha_crypt_digest_is_canonical: signature {}", norm(&f.sig)));
         }
     }
 
@@ -882,6 +915,13 @@ fn pam_ops(repo: &str, out: &str) -> Result<String, String> {
     b += "/-- CryptPw::check_pw: does the arm call the scheme's verifier (`false` = literally `false`) -/\ndef kindVerifies : HashKind → Bool\n";
     for (k, v) in &verifies {
         b += &format!("  | .{} => {v}\n", lower_first(k));
+    }
+    b += "/-- CryptPw::check_pw: the digest-shape guard in front of the verifier: (length of the text after the last `$`, allowed last characters); every character must be in [./0-9A-Za-z] -/\ndef digestShape : HashKind → Option (Nat × List Char)\n";
+    for (k, sh) in &shapes {
+        match sh {
+            Some((len, cs)) => b += &format!("  | .{} => some ({len}, [{}])\n", lower_first(k), chars(cs)),
+            None => b += &format!("  | .{} => none\n", lower_first(k)),
+        }
     }
     b += "inductive AcctAction where\n  | ret (c : PamCode)\n  | retIf (ifIgnoreUnknown otherwise : PamCode)\nderiving DecidableEq, Repr\n";
     b += "/-- acct_mgmt: `ClientResponse::PamStatus(..)` arms -/\ndef acctStatus : Option Bool → AcctAction\n";
